@@ -18,9 +18,10 @@ AltSat(alt, inst)   == inst[alt.pkg] # 0 /\ (alt.op = 0 \/ Cmp(inst[alt.pkg], al
 EntrySat(e, inst)   == \E i \in 1..Len(e) : AltSat(e[i], inst)
 Sat(field, inst)    == \A i \in 1..Len(field) : EntrySat(field[i], inst)
 
-\* q = 1: the relation carries an architecture qualifier ("p:any"): the installed version is still looked up under the
-\* package name, the qualifier plays no part in the decision
-Alts == { [pkg |-> p, op |-> o, req |-> r, q |-> q] : p \in Pkgs, o \in 0..5, r \in (IF Full THEN {2, 4} ELSE {3}), q \in 0..1 }
+\* q = 1: the relation carries an architecture qualifier ("p:any"); q = 2, 3: build-profile / architecture restrictions
+\* ("p <cross>", "p [amd64 !i386] <!nocheck> <stage1 cross>"): the installed version is looked up under the package
+\* name and none of these plays a part in the decision
+Alts == { [pkg |-> p, op |-> o, req |-> r, q |-> q] : p \in Pkgs, o \in 0..5, r \in (IF Full THEN {2, 4} ELSE {3}), q \in 0..3 }
 Third == { [pkg |-> "p", op |-> 0, req |-> 3, q |-> 0], [pkg |-> "q", op |-> 4, req |-> 3, q |-> 0], [pkg |-> "q", op |-> 1, req |-> 3, q |-> 0] }
 VARIABLES field, inst
 vars == <<field, inst>>
